@@ -206,6 +206,11 @@ func (epc *EpochsContext) Clone() *EpochsContext {
 }
 
 func (epc *EpochsContext) RotateEpochs(state BeaconState) error {
+	// The state may be wrapped (e.g. to make it upgradeable):
+	// the fork-specific state decides if there are sync committees to rotate.
+	if w, ok := state.(interface{ Unwrap() BeaconState }); ok {
+		state = w.Unwrap()
+	}
 	epc.PreviousEpoch = epc.CurrentEpoch
 	epc.CurrentEpoch = epc.NextEpoch
 	nextEpoch := epc.CurrentEpoch.Epoch + 1
